@@ -204,11 +204,19 @@ def confirm(v):
     return out != H.dec_str(10 ** kk, kk), out
 
 
-def validate(prog, rng, n):
+def validate(prog, rng, n, native_violations=None):
     cases = [rng.choice([10 ** k, 10 ** k - 1, 10 ** k + 1, rng.randint(0, 10 ** rng.randint(1, 60))]) for k in [rng.randint(0, 300) for _ in range(n)]]
+    cases += [10 ** k + d for k in range(0, 120) for d in (-2, -1, 0, 1)]
+    cases = [c for c in cases if c >= 0]
     outs = H.replay_lines(['digits\tdigits\t%s' % H.dec_str(x, 0) for x in cases])
     mism = []
     for x, nat in zip(cases, outs):
+        if native_violations is not None and nat != str(len(str(x))):
+            # the corpus doubles as a native probe: a concrete input on which the real crate breaks the property is a
+            # violation in its own right (reported as found by the probe, not by the solver)
+            native_violations.append({'kind': 'native-probe', 'detail': 'digits() of %d is %s natively, exact count %d' % (x, nat, len(str(x))),
+                                      'model': {'n': x}, 'task': {'kind': 'digits', 'b': x.bit_length(), 'via': 'digits'}, 'native': nat})
+            continue
         m = E.Machine(prog, (), [], E.Stats(), loop_bound=6000)
         S.BITS_MODE[:] = ['uf', 0]
         try:
@@ -246,7 +254,11 @@ def main(tier):
     rep.assumptions = ['BigUint::bits() returns the bit length (num-bigint contract)', 'ten_to_the_uint is a closed function of k: it is executed on the MIR for each k (no symbolic input exists)']
     rep.outside = ['bit lengths above the bound']
     sys.stderr.write('[C18] %d tasks\n' % len(tasks))
-    rep.validated, rep.validation_mismatches = validate(prog, rng, 200 if tier == 'quick' else 2000)
+    probe = []
+    rep.validated, rep.validation_mismatches = validate(prog, rng, 200 if tier == 'quick' else 2000, probe)
+    for v in probe[:6]:
+        v['replay_file'] = H.write_replay_file(PROP, v)
+        rep.confirmed.append(v)
     results = H.run_parallel(tasks, worker, progress=500)
     rep.add(results)
     for r in results:
